@@ -33,6 +33,98 @@ thread_local! {
 
 struct RedZone;
 
+/// Layout monitor: (pointer -> size, align) of the live allocations of this thread, in a fixed
+/// open-addressing table (no allocation inside the allocator). A `dealloc`/`realloc` whose layout
+/// differs from the recorded one is counted and served with the RECORDED layout.
+const LT_SIZE: usize = 4096;
+#[derive(Clone, Copy)]
+struct LtEntry {
+    ptr: usize,
+    size: usize,
+    align: usize,
+}
+struct LayoutTable {
+    e: [LtEntry; LT_SIZE],
+    n: usize,
+}
+thread_local! {
+    static LAYOUTS: std::cell::UnsafeCell<LayoutTable> = const {
+        std::cell::UnsafeCell::new(LayoutTable { e: [LtEntry { ptr: 0, size: 0, align: 0 }; LT_SIZE], n: 0 })
+    };
+    static LAYOUT_HITS: std::cell::Cell<u32> = const { std::cell::Cell::new(0) };
+}
+
+fn lt_slot(ptr: usize) -> usize {
+    (ptr >> 4).wrapping_mul(0x9E37_79B9_7F4A_7C15) >> 40 & (LT_SIZE - 1)
+}
+
+fn lt_insert(ptr: usize, size: usize, align: usize) {
+    let _ = LAYOUTS.try_with(|t| {
+        let t = unsafe { &mut *t.get() };
+        if t.n * 2 >= LT_SIZE {
+            return; // table half full: stop recording (checks of unknown pointers are skipped)
+        }
+        let mut i = lt_slot(ptr);
+        while t.e[i].ptr != 0 {
+            if t.e[i].ptr == ptr {
+                t.e[i] = LtEntry { ptr, size, align };
+                return;
+            }
+            i = (i + 1) & (LT_SIZE - 1);
+        }
+        t.e[i] = LtEntry { ptr, size, align };
+        t.n += 1;
+    });
+}
+
+/// removes and returns the recorded layout of `ptr` (allocated on this thread)
+fn lt_remove(ptr: usize) -> Option<(usize, usize)> {
+    LAYOUTS
+        .try_with(|t| {
+            let t = unsafe { &mut *t.get() };
+            let mut i = lt_slot(ptr);
+            loop {
+                if t.e[i].ptr == 0 {
+                    return None;
+                }
+                if t.e[i].ptr == ptr {
+                    break;
+                }
+                i = (i + 1) & (LT_SIZE - 1);
+            }
+            let found = (t.e[i].size, t.e[i].align);
+            // backward-shift deletion
+            let mut hole = i;
+            let mut j = (i + 1) & (LT_SIZE - 1);
+            while t.e[j].ptr != 0 {
+                let home = lt_slot(t.e[j].ptr);
+                let dist_home = j.wrapping_sub(home) & (LT_SIZE - 1);
+                let dist_hole = j.wrapping_sub(hole) & (LT_SIZE - 1);
+                if dist_home >= dist_hole {
+                    t.e[hole] = t.e[j];
+                    hole = j;
+                }
+                j = (j + 1) & (LT_SIZE - 1);
+            }
+            t.e[hole] = LtEntry { ptr: 0, size: 0, align: 0 };
+            t.n -= 1;
+            Some(found)
+        })
+        .ok()
+        .flatten()
+}
+
+/// the layout to use for the block: the recorded one; a differing argument is a violation
+fn lt_check(ptr: *mut u8, l: std::alloc::Layout) -> std::alloc::Layout {
+    match lt_remove(ptr as usize) {
+        Some((size, align)) if size != l.size() || align != l.align() => {
+            let _ = LAYOUT_HITS.try_with(|c| c.set(c.get() + 1));
+            unsafe { std::alloc::Layout::from_size_align_unchecked(size, align) }
+        }
+        _ => l,
+    }
+}
+
 unsafe fn red_check(ptr: *mut u8, size: usize) {
     let mut bad = false;
     for i in 0..RED {
@@ -54,11 +146,13 @@ unsafe impl std::alloc::GlobalAlloc for RedZone {
         let p = unsafe { std::alloc::System.alloc(big) };
         if !p.is_null() {
             unsafe { std::ptr::write_bytes(p.add(l.size()), RED_BYTE, RED) };
+            lt_insert(p as usize, l.size(), l.align());
         }
         p
     }
     unsafe fn dealloc(&self, p: *mut u8, l: std::alloc::Layout) {
         unsafe {
+            let l = lt_check(p, l);
             red_check(p, l.size());
             let big = std::alloc::Layout::from_size_align_unchecked(l.size() + RED, l.align());
             std::alloc::System.dealloc(p, big)
@@ -66,11 +160,15 @@ unsafe impl std::alloc::GlobalAlloc for RedZone {
     }
     unsafe fn realloc(&self, p: *mut u8, l: std::alloc::Layout, new_size: usize) -> *mut u8 {
         unsafe {
+            let l = lt_check(p, l);
             red_check(p, l.size());
             let big = std::alloc::Layout::from_size_align_unchecked(l.size() + RED, l.align());
             let q = std::alloc::System.realloc(p, big, new_size + RED);
             if !q.is_null() {
                 std::ptr::write_bytes(q.add(new_size), RED_BYTE, RED);
+                lt_insert(q as usize, new_size, l.align());
+            } else {
+                lt_insert(p as usize, l.size(), l.align());
             }
             q
         }
@@ -82,6 +180,10 @@ static GLOBAL: RedZone = RedZone;
 
 fn take_red_hits() -> u32 {
     RED_HITS.with(|c| c.replace(0))
+}
+
+fn take_layout_hits() -> u32 {
+    LAYOUT_HITS.with(|c| c.replace(0))
 }
 
 // ---------------------------------------------------------------------------------------------
@@ -104,6 +206,8 @@ struct Monitor {
     armed: bool,
     calls: u64,
     panic_at: Option<u64>,
+    /// how often the Clone probe found a cloneable iterator
+    clone_probes: u64,
 }
 
 thread_local! {
@@ -344,15 +448,48 @@ fn give<E: Elem>(e: E) -> u64 {
     raw.unwrap_or(u64::MAX)
 }
 
+/// Upper bound of the scripted `size_hint`: `None`, exactly the lower bound, or lower bound + k.
+#[derive(Clone, Copy, Debug, PartialEq)]
+enum Hi {
+    None,
+    Exact,
+    Plus(usize),
+}
+
+impl Hi {
+    fn token(&self) -> String {
+        match self {
+            Hi::None => "-".into(),
+            Hi::Exact => "=".into(),
+            Hi::Plus(k) => format!("+{k}"),
+        }
+    }
+    fn parse(t: &str) -> Option<Hi> {
+        match t {
+            "-" => Some(Hi::None),
+            "=" => Some(Hi::Exact),
+            _ => t.strip_prefix('+')?.parse().ok().map(Hi::Plus),
+        }
+    }
+    fn of(&self, lo: usize) -> Option<usize> {
+        match self {
+            Hi::None => None,
+            Hi::Exact => Some(lo),
+            Hi::Plus(k) => Some(lo + k),
+        }
+    }
+}
+
 /// A user collection: `IntoIterator::into_iter` is a user callback.
 struct GenIterable<E: Elem> {
     left: usize,
     hint: usize,
+    hi: Hi,
     _p: std::marker::PhantomData<E>,
 }
 impl<E: Elem> GenIterable<E> {
-    fn new(hint: usize, left: usize) -> Self {
-        GenIterable { left, hint, _p: std::marker::PhantomData }
+    fn new(hint: usize, left: usize, hi: Hi) -> Self {
+        GenIterable { left, hint, hi, _p: std::marker::PhantomData }
     }
 }
 impl<E: Elem> IntoIterator for GenIterable<E> {
@@ -360,15 +497,17 @@ impl<E: Elem> IntoIterator for GenIterable<E> {
     type IntoIter = GenIter<E>;
     fn into_iter(self) -> GenIter<E> {
         tick();
-        GenIter { left: self.left, hint: self.hint, _p: std::marker::PhantomData }
+        GenIter { left: self.left, hint: self.hint, hi: self.hi, _p: std::marker::PhantomData }
     }
 }
 
-/// User iterator: `next`, `size_hint` and its own `Drop` are user callbacks; the lower size
-/// hint may under- or over-state the number of items.
+/// User iterator: `next`, `size_hint` and its own `Drop` are user callbacks; the scripted
+/// `size_hint` = (lo, hi) may under- or over-state the number of items delivered — a safe iterator
+/// may lie, also with an "exact" upper bound.
 struct GenIter<E: Elem> {
     left: usize,
     hint: usize,
+    hi: Hi,
     _p: std::marker::PhantomData<E>,
 }
 impl<E: Elem> Iterator for GenIter<E> {
@@ -384,7 +523,7 @@ impl<E: Elem> Iterator for GenIter<E> {
     }
     fn size_hint(&self) -> (usize, Option<usize>) {
         tick();
-        (self.hint, None)
+        (self.hint, self.hi.of(self.hint))
     }
 }
 impl<E: Elem> Drop for GenIter<E> {
@@ -412,7 +551,7 @@ enum Op {
     /// `pop_if(|_| answer)`, the predicate being a user callback
     PopIf(bool),
     /// `FromIterator::from_iter` into a temporary vector that is then dropped
-    FromIter(usize, usize),
+    FromIter(usize, usize, Hi),
     Insert(usize),
     TryInsert(usize),
     Remove(usize),
@@ -423,7 +562,7 @@ enum Op {
     ResizeWith(usize),
     ExtSlice(usize),
     ExtWithin(usize, usize),
-    ExtIter(usize, usize),
+    ExtIter(usize, usize, Hi),
     Clone,
     Append(usize),
     SplitOff(usize),
@@ -442,7 +581,7 @@ impl Op {
             Op::TryPush => "try_push".into(),
             Op::Pop => "pop".into(),
             Op::PopIf(b) => format!("pop_if {}", if *b { "t" } else { "f" }),
-            Op::FromIter(h, n) => format!("from_iter {h} {n}"),
+            Op::FromIter(h, n, hi) => format!("from_iter {h} {n} {}", hi.token()),
             Op::Insert(i) => format!("insert {i}"),
             Op::TryInsert(i) => format!("try_insert {i}"),
             Op::Remove(i) => format!("remove {i}"),
@@ -453,7 +592,7 @@ impl Op {
             Op::ResizeWith(n) => format!("resize_with {n}"),
             Op::ExtSlice(n) => format!("ext_slice {n}"),
             Op::ExtWithin(a, b) => format!("ext_within {a} {b}"),
-            Op::ExtIter(h, n) => format!("ext_iter {h} {n}"),
+            Op::ExtIter(h, n, hi) => format!("ext_iter {h} {n} {}", hi.token()),
             Op::Clone => "clone".into(),
             Op::Append(n) => format!("append {n}"),
             Op::SplitOff(i) => format!("split_off {i}"),
@@ -474,7 +613,7 @@ impl Op {
             "try_push" => Op::TryPush,
             "pop" => Op::Pop,
             "pop_if" => Op::PopIf(*w.get(1)? == "t"),
-            "from_iter" => Op::FromIter(n(1)?, n(2)?),
+            "from_iter" => Op::FromIter(n(1)?, n(2)?, w.get(3).map_or(Some(Hi::None), |t| Hi::parse(t))?),
             "insert" => Op::Insert(n(1)?),
             "try_insert" => Op::TryInsert(n(1)?),
             "remove" => Op::Remove(n(1)?),
@@ -485,7 +624,7 @@ impl Op {
             "resize_with" => Op::ResizeWith(n(1)?),
             "ext_slice" => Op::ExtSlice(n(1)?),
             "ext_within" => Op::ExtWithin(n(1)?, n(2)?),
-            "ext_iter" => Op::ExtIter(n(1)?, n(2)?),
+            "ext_iter" => Op::ExtIter(n(1)?, n(2)?, w.get(3).map_or(Some(Hi::None), |t| Hi::parse(t))?),
             "clone" => Op::Clone,
             "append" => Op::Append(n(1)?),
             "split_off" => Op::SplitOff(n(1)?),
@@ -497,6 +636,63 @@ impl Op {
             "drop" => Op::Drop,
             _ => return None,
         })
+    }
+
+    /// statistics keys: which pulls / terminal an iterator script uses, which shape a scripted
+    /// size hint has
+    fn modes(&self) -> Vec<String> {
+        match self {
+            Op::Drain(_, _, sc) | Op::IntoIter(sc) => {
+                let which = if matches!(self, Op::Drain(..)) { "drain" } else { "into_iter" };
+                let (pulls, fin) = parse_script(sc);
+                let mut v: Vec<String> = pulls
+                    .iter()
+                    .map(|p| {
+                        let l = match p {
+                            Pull::Next => "next",
+                            Pull::Back => "next_back",
+                            Pull::Nth(_) => "nth",
+                            Pull::NthBack(_) => "nth_back",
+                            Pull::Skip(_) => "skip",
+                            Pull::StepBy(_) => "step_by",
+                            Pull::Rev => "rev",
+                        };
+                        format!("{which} pull {l}")
+                    })
+                    .collect();
+                v.sort();
+                v.dedup();
+                let f = match fin {
+                    'l' => "forget",
+                    'L' => "last",
+                    'C' => "count",
+                    'F' => "fold",
+                    'R' => "rfold",
+                    _ => "drop",
+                };
+                v.push(format!("{which} then {f}"));
+                v
+            }
+            Op::ExtIter(lo, n, hi) | Op::FromIter(lo, n, hi) => {
+                let which = if matches!(self, Op::ExtIter(..)) { "ext_iter" } else { "from_iter" };
+                let shape = match hi {
+                    Hi::None => "hi=None",
+                    Hi::Exact => "hi=lo",
+                    Hi::Plus(_) => "hi>lo",
+                };
+                let rel = |a: usize, b: usize| match a.cmp(&b) {
+                    std::cmp::Ordering::Less => "below",
+                    std::cmp::Ordering::Equal => "equal",
+                    std::cmp::Ordering::Greater => "above",
+                };
+                let mut v = vec![format!("{which} {shape} delivered {} lo", rel(*n, *lo))];
+                if let Some(h) = hi.of(*lo) {
+                    v.push(format!("{which} {shape} delivered {} hi", rel(*n, h)));
+                }
+                v
+            }
+            _ => vec![],
+        }
     }
 
     fn leaks(&self) -> bool {
@@ -532,22 +728,211 @@ fn some<E: Elem>(r: Result<E, ()>) -> Ret {
     }
 }
 
-/// `next` / `next_back` script shared by `Drain` and `IntoIter`
-fn run_script<E: Elem>(it: &mut impl DoubleEndedIterator<Item = E>, script: &str) {
-    for c in script.chars() {
-        match c {
-            'n' => {
-                if let Some(e) = it.next() {
-                    give(e);
-                }
+/// One pull of an iterator script.
+#[derive(Clone, Copy, Debug, PartialEq)]
+enum Pull {
+    /// `n` — `next()`
+    Next,
+    /// `b` — `next_back()`
+    Back,
+    /// `N<k>` — `nth(k)`
+    Nth(usize),
+    /// `M<k>` — `nth_back(k)`
+    NthBack(usize),
+    /// `s<k>` — `by_ref().skip(k).next()`
+    Skip(usize),
+    /// `t<k>` — two pulls of `by_ref().step_by(k)`
+    StepBy(usize),
+    /// `r` — `by_ref().rev().next()`
+    Rev,
+}
+
+/// Script = pulls followed by one terminal: `d` drop, `l` leak (`mem::forget`), `L` `last()`,
+/// `C` `count()`, `F` `fold` with a user closure, `R` `rfold` with a user closure.
+fn parse_script(script: &str) -> (Vec<Pull>, char) {
+    let cs: Vec<char> = script.chars().collect();
+    let (body, fin) = match cs.last() {
+        Some(c) if "dlLCFR".contains(*c) => (&cs[..cs.len() - 1], *c),
+        _ => (&cs[..], 'd'),
+    };
+    let mut pulls = vec![];
+    let mut i = 0;
+    while i < body.len() {
+        let c = body[i];
+        i += 1;
+        let mut k = 0usize;
+        let mut digits = false;
+        if "NMst".contains(c) {
+            while i < body.len() && body[i].is_ascii_digit() {
+                k = k * 10 + body[i] as usize - '0' as usize;
+                i += 1;
+                digits = true;
             }
-            'b' => {
-                if let Some(e) = it.next_back() {
-                    give(e);
-                }
-            }
-            _ => {}
         }
+        let _ = digits;
+        pulls.push(match c {
+            'n' => Pull::Next,
+            'b' => Pull::Back,
+            'r' => Pull::Rev,
+            'N' => Pull::Nth(k),
+            'M' => Pull::NthBack(k),
+            's' => Pull::Skip(k),
+            't' => Pull::StepBy(k.max(1)),
+            _ => continue,
+        });
+    }
+    (pulls, fin)
+}
+
+fn violation(msg: String) {
+    mon(|m| m.violations.push(msg));
+}
+
+/// `size_hint()` / `len()` contract of an exact-size iterator that still holds `expect` elements.
+fn contract<I: ExactSizeIterator>(it: &I, expect: usize, whence: &str) {
+    let (lo, hi) = it.size_hint();
+    let n = it.len();
+    if lo != expect || hi != Some(expect) || n != expect {
+        violation(format!(
+            "iterator contract {whence}: size_hint() = ({lo}, {hi:?}), len() = {n}, but {expect} element(s) remain"
+        ));
+    }
+}
+
+fn pulled<E: Elem>(r: Option<E>, want: bool, what: &str) {
+    if r.is_some() != want {
+        violation(format!(
+            "iterator contract: {what} returned {} but the iterator was {}",
+            if r.is_some() { "Some" } else { "None" },
+            if want { "long enough" } else { "too short" }
+        ));
+    }
+    if let Some(e) = r {
+        give(e);
+    }
+}
+
+/// Script shared by `Drain` and `IntoIter`.  The iterator is taken by value: a panic anywhere
+/// drops it by unwinding.  `remain` = the number of elements it starts with; `probe` is the Clone
+/// probe, instantiated where the concrete iterator type is known.
+fn run_iter<E: Elem, I>(mut it: I, mut remain: usize, script: &str, probe: impl Fn(&I) -> bool)
+where
+    I: DoubleEndedIterator<Item = E> + ExactSizeIterator,
+{
+    let (pulls, fin) = parse_script(script);
+    for p in pulls {
+        contract(&it, remain, "before a pull");
+        match p {
+            Pull::Next => {
+                let want = remain > 0;
+                remain = remain.saturating_sub(1);
+                pulled(it.next(), want, "next()");
+            }
+            Pull::Back => {
+                let want = remain > 0;
+                remain = remain.saturating_sub(1);
+                pulled(it.next_back(), want, "next_back()");
+            }
+            Pull::Rev => {
+                let want = remain > 0;
+                remain = remain.saturating_sub(1);
+                pulled(it.by_ref().rev().next(), want, "rev().next()");
+            }
+            Pull::Nth(k) => {
+                let want = remain > k;
+                remain = remain.saturating_sub(k + 1);
+                pulled(it.nth(k), want, "nth(k)");
+            }
+            Pull::NthBack(k) => {
+                let want = remain > k;
+                remain = remain.saturating_sub(k + 1);
+                pulled(it.nth_back(k), want, "nth_back(k)");
+            }
+            Pull::Skip(k) => {
+                let want = remain > k;
+                remain = remain.saturating_sub(k + 1);
+                pulled(it.by_ref().skip(k).next(), want, "skip(k).next()");
+            }
+            Pull::StepBy(k) => {
+                let mut st = it.by_ref().step_by(k);
+                let want = remain > 0;
+                remain = remain.saturating_sub(1);
+                pulled(st.next(), want, "step_by(k).next()");
+                let want = remain > k - 1;
+                remain = remain.saturating_sub(k);
+                pulled(st.next(), want, "step_by(k).next() (second)");
+            }
+        }
+    }
+    contract(&it, remain, "after the pulls");
+    if probe(&it) {
+        mon(|m| m.clone_probes += 1);
+    }
+    match fin {
+        'l' => std::mem::forget(it),
+        'L' => {
+            let r = it.last();
+            pulled(r, remain > 0, "last()");
+        }
+        'C' => {
+            let c = it.count();
+            if c != remain {
+                violation(format!("iterator contract: count() = {c} but {remain} element(s) remained"));
+            }
+        }
+        'F' => {
+            let c = it.fold(0usize, |c, x| {
+                tick();
+                give(x);
+                c + 1
+            });
+            if c != remain {
+                violation(format!("iterator contract: fold visited {c} of {remain} element(s)"));
+            }
+        }
+        'R' => {
+            let c = it.rfold(0usize, |c, x| {
+                tick();
+                give(x);
+                c + 1
+            });
+            if c != remain {
+                violation(format!("iterator contract: rfold visited {c} of {remain} element(s)"));
+            }
+        }
+        _ => drop(it),
+    }
+}
+
+/// Clone probe by autoref specialisation: `(&CloneProbe(&it)).probe()` clones and drops `it` if
+/// its type is `Clone` (the element registry sees the clones) and is a no-op otherwise — it
+/// compiles either way.
+#[allow(dead_code)]
+struct CloneProbe<'a, T>(&'a T);
+#[allow(dead_code)]
+trait ProbeClone {
+    fn probe(&self) -> bool;
+}
+impl<T: Clone> ProbeClone for CloneProbe<'_, T> {
+    fn probe(&self) -> bool {
+        let c = self.0.clone();
+        drop(c);
+        true
+    }
+}
+trait ProbeNoClone {
+    fn probe(&self) -> bool;
+}
+impl<T> ProbeNoClone for &CloneProbe<'_, T> {
+    fn probe(&self) -> bool {
+        false
+    }
+}
+
+/// `from_iter` builds a temporary: the state monitors run on it before it is dropped.
+fn check_temp<C: Cont>(t: &Option<C>) {
+    for v in state_violations(t) {
+        violation(format!("from_iter result: {v}"));
     }
 }
 
@@ -594,21 +979,16 @@ macro_rules! common_ops {
                 Some(unit(r))
             }
             Op::ExtWithin(a, b) => Some(unit(armed(|| $v.extend_from_within(*a..*b)))),
-            Op::ExtIter(h, n) => Some(unit(armed(|| {
-                $v.extend(GenIterable::<$E>::new(*h, *n))
+            Op::ExtIter(h, n, hi) => Some(unit(armed(|| {
+                $v.extend(GenIterable::<$E>::new(*h, *n, *hi))
             }))),
             Op::SplitOff(i) => Some(unit(armed(|| {
                 let o = $v.split_off(*i);
                 drop(o);
             }))),
             Op::Drain(a, b, script) => Some(unit(armed(|| {
-                let mut d = $v.drain(*a..*b);
-                run_script(&mut d, script);
-                if script.ends_with('l') {
-                    std::mem::forget(d);
-                } else {
-                    drop(d);
-                }
+                let d = $v.drain(*a..*b);
+                run_iter(d, *b - *a, script, |it| (&CloneProbe(it)).probe());
             }))),
             _ => None,
         }
@@ -675,9 +1055,9 @@ impl<E: Elem, const CAP: usize> Cont for InlineVec<E, CAP> {
                 Ok(Some(e)) => Ret::Some(give(e)),
                 Err(()) => Ret::Panic,
             },
-            Op::FromIter(h, n) => unit(armed(|| {
-                let t = <InlineVec<E, CAP> as FromIterator<E>>::from_iter(GenIterable::<E>::new(*h, *n));
-                drop(t);
+            Op::FromIter(h, n, hi) => unit(armed(|| {
+                let t = <InlineVec<E, CAP> as FromIterator<E>>::from_iter(GenIterable::<E>::new(*h, *n, *hi));
+                check_temp(&Some(t));
             })),
             Op::Clone => unit(armed(|| {
                 let c = v.clone();
@@ -698,13 +1078,9 @@ impl<E: Elem, const CAP: usize> Cont for InlineVec<E, CAP> {
             Op::IntoIter(script) => {
                 let v = slot.take().unwrap();
                 let r = armed(move || {
-                    let mut it = v.into_iter();
-                    run_script(&mut it, script);
-                    if script.ends_with('l') {
-                        std::mem::forget(it);
-                    } else {
-                        drop(it);
-                    }
+                    let n = v.len();
+                    let it = v.into_iter();
+                    run_iter(it, n, script, |it| (&CloneProbe(it)).probe());
                 });
                 *slot = Some(InlineVec::new());
                 unit(r)
@@ -781,9 +1157,9 @@ impl<E: Elem, P: PrefixKind> Cont for thin::ThinVec<E, P> {
             Op::TryPush | Op::TryInsert(_) | Op::ResizeWith(_) | Op::IntoIter(_) | Op::PopIf(_) => {
                 Ret::Na
             }
-            Op::FromIter(h, n) => unit(armed(|| {
-                let t = <thin::ThinVec<E, P> as FromIterator<E>>::from_iter(GenIterable::<E>::new(*h, *n));
-                drop(t);
+            Op::FromIter(h, n, hi) => unit(armed(|| {
+                let t = <thin::ThinVec<E, P> as FromIterator<E>>::from_iter(GenIterable::<E>::new(*h, *n, *hi));
+                check_temp(&Some(t));
             })),
             Op::Clone => unit(armed(|| {
                 let c: thin::ThinVec<E, P> = thin::ThinVec::from(v.as_slice());
@@ -975,6 +1351,7 @@ struct CaseOut {
     /// at most one entry of kind "monitor" (the run stops there) and one "impl-vs-model"
     /// (the first differing line; the run continues so that the monitors see the rest)
     bads: Vec<Bad>,
+    clone_probes: u64,
 }
 
 impl CaseOut {
@@ -983,6 +1360,8 @@ impl CaseOut {
     }
 }
 
+const LAYOUT_MSG: &str =
+    "layout mismatch: realloc/dealloc called with a layout (size, align) other than the one the block was allocated with";
 const RED_MSG: &str = "write beyond the end of a heap allocation (red zone damaged)";
 
 /// the two lines differ only in the order of their drop events
@@ -1060,9 +1439,10 @@ fn run_case<C: Cont>(drv: &mut Driver, hist: &Hist) -> Result<CaseOut, String> {
     // implementation side
     reset_monitor();
     take_red_hits();
+    take_layout_hits();
     let mut canon = Canon::default();
     let mut slot: Option<C> = Some(C::fresh());
-    let mut out = CaseOut { calls: vec![], panicked: false, bads: vec![] };
+    let mut out = CaseOut { calls: vec![], panicked: false, bads: vec![], clone_probes: 0 };
     let obs = |slot: &Option<C>| match slot {
         Some(v) => (v.len_(), v.cap_(), v.ids_()),
         None => (0, 0, vec![]),
@@ -1125,8 +1505,12 @@ fn run_case<C: Cont>(drv: &mut Driver, hist: &Hist) -> Result<CaseOut, String> {
         }
         let (evs, calls, mut viol) =
             mon(|m| (std::mem::take(&mut m.events), m.calls, std::mem::take(&mut m.violations)));
+        out.clone_probes += mon(|m| std::mem::take(&mut m.clone_probes));
         if take_red_hits() > 0 {
             viol.push(RED_MSG.into());
+        }
+        if take_layout_hits() > 0 {
+            viol.push(LAYOUT_MSG.into());
         }
         viol.extend(state_violations(&slot));
         out.calls.push(calls);
@@ -1160,6 +1544,9 @@ fn run_case<C: Cont>(drv: &mut Driver, hist: &Hist) -> Result<CaseOut, String> {
     let mut viol = mon(|m| std::mem::take(&mut m.violations));
     if take_red_hits() > 0 {
         viol.push(RED_MSG.into());
+    }
+    if take_layout_hits() > 0 {
+        viol.push(LAYOUT_MSG.into());
     }
     if !out.has("monitor") && !viol.is_empty() {
         monitor(&mut out, hist.len(), viol);
@@ -1260,8 +1647,9 @@ fn alphabet(cfg: Cfg, fill: usize) -> Vec<Op> {
         Op::Resize(1),
         Op::ExtSlice(2),
         Op::ExtWithin(0, f.max(1)),
-        Op::ExtIter(1, 2),
-        Op::FromIter(1, 2),
+        Op::ExtIter(1, 2, Hi::None),
+        Op::FromIter(1, 2, Hi::Plus(1)),
+        Op::FromIter(cap, cap + 2, Hi::Exact),
         Op::Clone,
         Op::Append(2.min(cap)),
         Op::SplitOff(1),
@@ -1270,6 +1658,8 @@ fn alphabet(cfg: Cfg, fill: usize) -> Vec<Op> {
         Op::Drain(0, 1, "bl".into()),
         // items taken from the back, then the drain is dropped
         Op::Drain(0, 2, "bd".into()),
+        Op::Drain(0, 2, "N1d".into()),
+        Op::Drain(0, 2, "F".into()),
         Op::Roundtrip,
     ];
     if cfg.is_thin() {
@@ -1277,9 +1667,9 @@ fn alphabet(cfg: Cfg, fill: usize) -> Vec<Op> {
         // under-reporting iterator (size hint < number of items) on a vector whose capacity is
         // exactly len + hint: the item number `hint` needs the per-item reserve
         let h = cap.saturating_sub(f);
-        a.push(Op::ExtIter(h, h + 1));
+        a.push(Op::ExtIter(h, h + 1, Hi::Exact));
         if h != 0 {
-            a.push(Op::ExtIter(0, 2));
+            a.push(Op::ExtIter(0, 2, Hi::None));
         }
     } else {
         a.extend([
@@ -1290,6 +1680,7 @@ fn alphabet(cfg: Cfg, fill: usize) -> Vec<Op> {
             Op::PopIf(false),
             Op::IntoIter("nd".into()),
             Op::IntoIter("bl".into()),
+            Op::IntoIter("s1L".into()),
         ]);
     }
     a
@@ -1301,8 +1692,20 @@ fn random_op(rng: &mut Rng, cfg: Cfg, len: usize) -> Op {
     let idx = |rng: &mut Rng| if rng.chance(1, 8) { rng.below(hi + 1) } else { rng.below(len + 1) };
     let script = |rng: &mut Rng| {
         let n = rng.below(4);
-        let mut s: String = (0..n).map(|_| if rng.chance(1, 2) { 'n' } else { 'b' }).collect();
-        s.push(if rng.chance(1, 5) { 'l' } else { 'd' });
+        let mut s = String::new();
+        for _ in 0..n {
+            let k = rng.below(3);
+            match rng.below(10) {
+                0 | 1 | 2 => s.push('n'),
+                3 | 4 => s.push('b'),
+                5 => s.push_str(&format!("N{k}")),
+                6 => s.push_str(&format!("M{k}")),
+                7 => s.push_str(&format!("s{k}")),
+                8 => s.push_str(&format!("t{}", k + 1)),
+                _ => s.push('r'),
+            }
+        }
+        s.push(*rng.pick(&['d', 'd', 'd', 'l', 'L', 'C', 'F', 'R']));
         s
     };
     let small = |rng: &mut Rng| rng.below(if cfg.is_thin() { 2 * cap + 3 } else { cap + 2 });
@@ -1334,7 +1737,7 @@ fn random_op(rng: &mut Rng, cfg: Cfg, len: usize) -> Op {
             }
             12 => {
                 let n = rng.below(cap + 2);
-                Op::ExtIter(rng.below(n + 2), n)
+                Op::ExtIter(rng.below(n + 2), n, *rng.pick(&[Hi::None, Hi::Exact, Hi::Plus(2)]))
             }
             13 => Op::Clone,
             14 => Op::Append(rng.below(cap.min(4) + 1)),
@@ -1349,7 +1752,7 @@ fn random_op(rng: &mut Rng, cfg: Cfg, len: usize) -> Op {
                     Op::Roundtrip
                 } else {
                     let n = rng.below(cap + 2);
-                    Op::FromIter(rng.below(n + 2), n)
+                    Op::FromIter(rng.below(n + 2), n, *rng.pick(&[Hi::None, Hi::Exact, Hi::Plus(2)]))
                 }
             }
             19 if cfg.is_thin() => Op::ShrinkFit,
@@ -1386,6 +1789,8 @@ struct Stats {
     panics: u64,
     per_op: std::collections::BTreeMap<String, u64>,
     per_cfg: std::collections::BTreeMap<String, u64>,
+    /// iterator pulls / terminals, size-hint shapes
+    per_mode: std::collections::BTreeMap<String, u64>,
     samples: Vec<serde_json::Value>,
     /// kind "monitor" (listed first, own cap) and kind "impl-vs-model"
     monitors: Vec<serde_json::Value>,
@@ -1405,6 +1810,9 @@ impl Stats {
         }
         for (k, v) in o.per_cfg {
             *self.per_cfg.entry(k).or_default() += v;
+        }
+        for (k, v) in o.per_mode {
+            *self.per_mode.entry(k).or_default() += v;
         }
         if self.samples.len() < 6 {
             self.samples.extend(o.samples.into_iter().take(2));
@@ -1489,6 +1897,7 @@ fn run_guarded(cfg: Cfg, drv: &mut Driver, hist: &Hist) -> Result<CaseOut, Strin
             Ok(CaseOut {
                 calls: vec![],
                 panicked: false,
+                clone_probes: 0,
                 bads: vec![Bad {
                     kind: "monitor",
                     at: 0,
@@ -1569,10 +1978,17 @@ impl Worker {
         if out.panicked {
             self.stats.panics += 1;
         }
+        if out.clone_probes > 0 {
+            *self.stats.per_mode.entry("clone probe: the iterator is Clone".into()).or_default() +=
+                out.clone_probes;
+        }
         for (_, op) in hist {
             let l = op.line();
             let name = l.split(' ').next().unwrap().to_string();
             *self.stats.per_op.entry(name).or_default() += 1;
+            for m in op.modes() {
+                *self.stats.per_mode.entry(m).or_default() += 1;
+            }
         }
         if self.stats.samples.len() < 3 && hist.len() >= 3 && self.stats.evaluations % 97 == 5 {
             self.stats.samples.push(serde_json::json!(hist_lines(cfg, hist)));
@@ -1699,14 +2115,82 @@ fn boundaries(w: &mut Worker, cfg: Cfg) -> Result<(), String> {
             Op::Resize(l + 2),
             Op::ExtSlice(2),
             Op::ExtWithin(0, l),
-            Op::ExtIter(0, 2),
-            Op::ExtIter(3, 2),
+            Op::ExtIter(0, 2, Hi::Exact),
+            Op::ExtIter(3, 2, Hi::None),
             Op::Append(2),
             Op::SplitOff(l / 2),
             Op::Clone,
             Op::Roundtrip,
         ] {
             w.eval_all_faults(cfg, &setup, &[op])?;
+        }
+    }
+    Ok(())
+}
+
+/// Every iterator script of at most two pulls, followed by each terminal, on `Drain` over three
+/// ranges and (InlineVec) on `IntoIter`, with every fault position: element drops, fold closure.
+fn iterator_scripts(w: &mut Worker, cfg: Cfg, fill: usize, me: usize, workers: usize) -> Result<(), String> {
+    let pulls = ["n", "b", "N0", "N1", "N2", "M0", "M1", "s1", "s2", "t1", "t2", "r"];
+    let mut bodies: Vec<String> = vec![String::new()];
+    for a in pulls {
+        bodies.push(a.to_string());
+        for b in pulls {
+            bodies.push(format!("{a}{b}"));
+        }
+    }
+    let setup: Hist = (0..fill).map(|_| (None, Op::Push)).collect();
+    let mut ranges = vec![(0, fill), (1.min(fill), fill), (0, fill.saturating_sub(1))];
+    ranges.dedup();
+    let mut counter = 0usize;
+    for body in &bodies {
+        for fin in ["d", "l", "L", "C", "F", "R"] {
+            counter += 1;
+            if counter % workers != me {
+                continue;
+            }
+            let sc = format!("{body}{fin}");
+            for (a, b) in &ranges {
+                w.eval_all_faults(cfg, &setup, &[Op::Drain(*a, *b, sc.clone())])?;
+            }
+            if matches!(cfg, Cfg::I(_)) {
+                w.eval_all_faults(cfg, &setup, &[Op::IntoIter(sc.clone())])?;
+            }
+        }
+    }
+    Ok(())
+}
+
+/// Scripted size hints (lo, hi) of the caller's iterator in `extend` / `from_iter`: hi ∈ {None,
+/// Some(lo), Some(lo + k)}; delivered count below / equal / above lo and hi; every fault position.
+fn iterator_hints(w: &mut Worker, cfg: Cfg, me: usize, workers: usize) -> Result<(), String> {
+    let c0 = cfg.cap0();
+    let mut fills = vec![0, 1, c0.saturating_sub(1), c0];
+    fills.sort();
+    fills.dedup();
+    let mut counter = 0usize;
+    for fill in fills {
+        let setup: Hist = (0..fill).map(|_| (None, Op::Push)).collect();
+        let room = c0.saturating_sub(fill);
+        let mut los = vec![0, 1, 2, room, room + 1, c0, c0 + 1];
+        los.sort();
+        los.dedup();
+        for lo in los {
+            for hi in [Hi::None, Hi::Exact, Hi::Plus(1), Hi::Plus(2)] {
+                let mut ns = vec![0, lo.saturating_sub(1), lo, lo + 1, lo + 2, lo + 3];
+                ns.sort();
+                ns.dedup();
+                for n in ns {
+                    counter += 1;
+                    if counter % workers != me {
+                        continue;
+                    }
+                    w.eval_all_faults(cfg, &setup, &[Op::ExtIter(lo, n, hi)])?;
+                    if fill <= 1 {
+                        w.eval_all_faults(cfg, &setup, &[Op::FromIter(lo, n, hi)])?;
+                    }
+                }
+            }
         }
     }
     Ok(())
@@ -1725,7 +2209,7 @@ fn random_cases(w: &mut Worker, cfg: Cfg, rng: &mut Rng, count: usize, maxlen: u
                 Op::Truncate(k) => est.min(*k),
                 Op::Clear | Op::IntoIter(_) => 0,
                 Op::Resize(k) | Op::ResizeWith(k) => *k,
-                Op::ExtSlice(k) | Op::Append(k) | Op::ExtIter(_, k) => est + k,
+                Op::ExtSlice(k) | Op::Append(k) | Op::ExtIter(_, k, _) => est + k,
                 Op::ExtWithin(a, b) => est + b.saturating_sub(*a),
                 Op::SplitOff(k) => est.min(*k),
                 Op::Drain(a, b, _) => est.saturating_sub(b.saturating_sub(*a)),
@@ -1887,6 +2371,18 @@ fn main() {
                 (Cfg::T(16, true), 0, 3),
             ]);
         }
+        // (config, fill) jobs of the iterator-script part
+        let mut iter_jobs: Vec<(Cfg, usize)> = vec![
+            (Cfg::I(4), 3),
+            (Cfg::I(4), 4),
+            (Cfg::I(2), 2),
+            (Cfg::T(8, true), 3),
+            (Cfg::T(4, false), 4),
+            (Cfg::P(1), 3),
+        ];
+        if thorough {
+            iter_jobs.extend([(Cfg::I(6), 5), (Cfg::I(3), 1), (Cfg::T(16, true), 5), (Cfg::T(8, false), 2), (Cfg::P(0), 4), (Cfg::P(2), 3)]);
+        }
         let all_cfgs = [
             Cfg::I(1),
             Cfg::I(2),
@@ -1916,6 +2412,12 @@ fn main() {
             };
             for (cfg, fill, depth) in &jobs {
                 exhaustive(&mut w, *cfg, *fill, *depth, me, workers)?;
+            }
+            for (cfg, fill) in &iter_jobs {
+                iterator_scripts(&mut w, *cfg, *fill, me, workers)?;
+            }
+            for cfg in &all_cfgs {
+                iterator_hints(&mut w, *cfg, me, workers)?;
             }
             let mut rng = Rng::new(seed.wrapping_mul(1000).wrapping_add(me as u64));
             for (n, cfg) in all_cfgs.iter().enumerate() {
@@ -1953,13 +2455,14 @@ fn main() {
     let stats = serde_json::json!({
         "evaluations": total.evaluations,
         "distinct_nontrivial": total.nontrivial,
-        "rule": "kind monitor (implementation alone, after every op incl. caught panics): len <= capacity; every slot below len holds a live tracked element exactly once; no id dropped/returned twice; no drop/clone of a dead or uninitialised element; no write beyond a heap allocation (red zones); after the final drop of fault-free leak-free histories every element and prefix value ever created has been dropped or returned. kind impl-vs-model (tracked-element configurations): per operation ret, len, capacity, ids (canonical), number of user-callback invocations and the mk/cl/dr/rt trace equal the L0 model's (a difference in the order of drop events only is flagged by a note). tvec-plain configurations (tracked prefix, u8/u64/() elements) are monitor-only",
+        "rule": "kind monitor (implementation alone, after every op incl. caught panics): len <= capacity; every slot below len holds a live tracked element exactly once; no id dropped/returned twice; no drop/clone of a dead or uninitialised element; no write beyond a heap allocation (red zones); every realloc/dealloc is called with the layout (size and align) the block was allocated with; the vector built by from_iter satisfies the same state monitors before it is dropped; Drain/IntoIter: size_hint() = (len(), Some(len())) = the number of elements left before every pull and after the script, nth/nth_back/skip/step_by/rev/last/count/fold/rfold return Some/None and visit as many elements as that number says; if the iterator type is Clone (autoref probe) a clone of the partially consumed iterator is made and dropped under the element registry; after the final drop of fault-free leak-free histories every element and prefix value ever created has been dropped or returned. kind impl-vs-model (tracked-element configurations): per operation ret, len, capacity, ids (canonical), number of user-callback invocations and the mk/cl/dr/rt trace equal the L0 model's (a difference in the order of drop events only is flagged by a note); the model derives nth, nth_back, skip, step_by, rev, last, count, fold, rfold from next/next_back as std's default implementations do, so an override that behaves differently shows here; the caller's iterator in extend/from_iter reports a scripted size_hint (lo, hi) with hi in {None, Some(lo), Some(lo+k)} and delivers fewer, as many or more items. tvec-plain configurations (tracked prefix, u8/u64/() elements) are monitor-only",
         "exhaustive": exhaustive_flag,
         "distribution": {
             "faulted_histories": total.faulted,
             "histories_with_panic": total.panics,
             "per_config": total.per_cfg,
             "per_op": total.per_op,
+            "per_mode": total.per_mode,
         },
         "samples": total.samples,
         "disagreements": total.disagreements(),
